@@ -2,6 +2,7 @@ package c10
 
 import (
 	"fmt"
+	"reflect"
 
 	corev1 "k8s.io/api/core/v1"
 	metav1 "k8s.io/apimachinery/pkg/apis/meta/v1"
@@ -286,6 +287,127 @@ func metadataScenario(rep *report.R) report.Scenario {
 			}
 			if rn != "" && c1.GetAnnotations()["crossplane.io/composition-resource-name"] != rn {
 				a.fail(r, rec, "oracle/render-metadata/resource-name/"+sig, "template name annotation %q, want %q", c1.GetAnnotations()["crossplane.io/composition-resource-name"], rn)
+			}
+		}
+		a.done(rec)
+	}}
+}
+
+// ---- patch sets -----------------------------------------------------------------
+
+// patchSetScenario: ComposedTemplates inlines patch sets. It must not panic,
+// must not modify the templates or sets it was given, and puts the patches of
+// a set exactly where the reference to it stood.
+func patchSetScenario(rep *report.R) report.Scenario {
+	name := "render/patchsets"
+	a := newAcct(rep, name)
+	mk := func(tag string) v1.Patch {
+		return v1.Patch{Type: v1.PatchTypeFromCompositeFieldPath, FromFieldPath: ptr("spec." + tag), ToFieldPath: ptr("spec." + tag)}
+	}
+	type refShape struct {
+		name string
+		p    *v1.Patch
+		ok   bool
+	}
+	refs := []refShape{
+		{name: "none"},
+		{name: "valid", p: &v1.Patch{Type: v1.PatchTypePatchSet, PatchSetName: ptr("ps")}, ok: true},
+		{name: "second-set", p: &v1.Patch{Type: v1.PatchTypePatchSet, PatchSetName: ptr("other")}, ok: true},
+		{name: "undefined", p: &v1.Patch{Type: v1.PatchTypePatchSet, PatchSetName: ptr("nope")}},
+		{name: "nil-name", p: &v1.Patch{Type: v1.PatchTypePatchSet}},
+		{name: "empty-name", p: &v1.Patch{Type: v1.PatchTypePatchSet, PatchSetName: ptr("")}},
+	}
+	setShapes := []string{"two-sets", "no-sets", "nested-patchset", "empty-set", "duplicate-name"}
+	return report.Scenario{Name: name, Bound: 0, After: a.after, Body: func(r *explore.Run) {
+		ref := refs[r.Free(len(refs), "reference")]
+		ss := setShapes[r.Free(len(setShapes), "sets")]
+		pos := r.Free(3, "position")
+		var sets []v1.PatchSet
+		switch ss {
+		case "two-sets":
+			sets = []v1.PatchSet{{Name: "ps", Patches: []v1.Patch{mk("s1"), mk("s2")}}, {Name: "other", Patches: []v1.Patch{mk("o1")}}}
+		case "nested-patchset":
+			sets = []v1.PatchSet{{Name: "ps", Patches: []v1.Patch{mk("s1"), {Type: v1.PatchTypePatchSet, PatchSetName: ptr("other")}}}, {Name: "other", Patches: []v1.Patch{mk("o1")}}}
+		case "empty-set":
+			sets = []v1.PatchSet{{Name: "ps"}, {Name: "other", Patches: []v1.Patch{mk("o1")}}}
+		case "duplicate-name":
+			sets = []v1.PatchSet{{Name: "ps", Patches: []v1.Patch{mk("s1")}}, {Name: "ps", Patches: []v1.Patch{mk("s2")}}, {Name: "other", Patches: []v1.Patch{mk("o1")}}}
+		}
+		own := []v1.Patch{mk("a"), mk("b")}
+		var ps []v1.Patch
+		ps = append(ps, own[:pos]...)
+		if ref.p != nil {
+			ps = append(ps, *ref.p)
+		}
+		ps = append(ps, own[pos:]...)
+		n := "t"
+		cts := []v1.ComposedTemplate{{Name: &n, Patches: ps}, {Name: ptr("u"), Patches: []v1.Patch{mk("u")}}}
+		comp := &v1.Composition{Spec: v1.CompositionSpec{PatchSets: sets, Resources: cts}}
+		_, verrs := comp.Validate()
+		validated := len(verrs) == 0
+		snapSets := (&v1.CompositionSpec{PatchSets: sets}).DeepCopy().PatchSets
+		snapCts := (&v1.CompositionSpec{Resources: cts}).DeepCopy().Resources
+		run := func() (out []v1.ComposedTemplate, err error, pan any) {
+			defer func() {
+				if p := recover(); p != nil {
+					pan = p
+				}
+			}()
+			out, err = xcomposite.ComposedTemplates(sets, cts)
+			return out, err, nil
+		}
+		o1, e1, p1 := run()
+		o2, e2, p2 := run()
+		r.Logf("ComposedTemplates sets=%s reference=%s at %d: err=%v panic=%v (%s)", ss, ref.name, pos, e1, p1, valWord(validated))
+		rec := &evalRec{outcome: report.Hash(errStr(e1), fmt.Sprint(p1), fmt.Sprint(len(o1)))}
+		if validated && ref.p != nil {
+			rec.nontrivial = report.Hash("ps", ref.name, ss, pos)
+			rec.sample = map[string]any{"scenario": name, "sets": ss, "reference": ref.name, "position": pos, "error": errStr(e1), "choices": append([]int{}, r.Choices...)}
+		}
+		sig := ss + "/" + ref.name
+		if p1 != nil {
+			if validated {
+				a.fail(r, rec, "panic/patchsets/"+sig, "ComposedTemplates panicked: %v (validated: Composition.Validate() accepts it)", p1)
+			}
+			rec.unvalPanic = "patchsets/" + sig
+			a.done(rec)
+			return
+		}
+		if fmt.Sprint(p1) != fmt.Sprint(p2) || errStr(e1) != errStr(e2) || !reflect.DeepEqual(o1, o2) {
+			a.fail(r, rec, "determinism/patchsets/"+sig, "two runs differ (%s)", valWord(validated))
+		}
+		if !reflect.DeepEqual(sets, snapSets) || !reflect.DeepEqual(cts, snapCts) {
+			a.fail(r, rec, "purity/patchsets/"+sig, "ComposedTemplates modified the patch sets or templates it was given (%s)", valWord(validated))
+		}
+		// Reference: defined for the unambiguous set shapes.
+		if ss == "two-sets" || ss == "empty-set" || ss == "no-sets" {
+			defined := map[string][]v1.Patch{}
+			for _, s := range sets {
+				defined[s.Name] = s.Patches
+			}
+			wantErr := false
+			var want []v1.Patch
+			want = append(want, own[:pos]...)
+			if ref.p != nil {
+				set, ok := []v1.Patch(nil), false
+				if ref.p.PatchSetName != nil {
+					set, ok = defined[*ref.p.PatchSetName]
+				}
+				if !ok {
+					wantErr = true
+				}
+				want = append(want, set...)
+			}
+			want = append(want, own[pos:]...)
+			switch {
+			case wantErr && e1 == nil:
+				a.fail(r, rec, "oracle/patchsets/undefined-reference-accepted", "reference %s to an undefined patch set returned no error (%s)", ref.name, valWord(validated))
+			case !wantErr && e1 != nil:
+				a.fail(r, rec, "oracle/patchsets/unexpected-error", "unexpected error %v (%s)", e1, valWord(validated))
+			case !wantErr:
+				if len(o1) != 2 || !(len(o1[0].Patches) == 0 && len(want) == 0 || reflect.DeepEqual(o1[0].Patches, want)) || !reflect.DeepEqual(o1[1].Patches, cts[1].Patches) {
+					a.fail(r, rec, "oracle/patchsets/wrong-inlining", "inlined patches differ from the reference: got %d patches in template t, want %d (%s)", len(o1[0].Patches), len(want), valWord(validated))
+				}
 			}
 		}
 		a.done(rec)
